@@ -128,13 +128,17 @@ class Impl:
         return self.api if ep == "api" else self.sz.SerializerBase if ep == "base" else self.ser_classes[ep]
 
     def apply_history(self, history, converter):
+        """a call that raises (e.g. a bytes tag that does not decode) simply did not happen"""
         for op, ep, kind, tag in history:
             target = self.entry(ep)
             if kind == "d2c":
-                if op == "reg":
-                    target.register_dict_to_class(tag, converter)
-                else:
-                    target.unregister_dict_to_class(tag)
+                try:
+                    if op == "reg":
+                        target.register_dict_to_class(spelled(tag), converter)
+                    else:
+                        target.unregister_dict_to_class(spelled(tag))
+                except (UnicodeDecodeError, TypeError, KeyError):
+                    pass
             else:
                 clazz = KCLASSES[tag]
                 if op == "reg":
@@ -215,13 +219,44 @@ def history_of(case):
     return [["reg", "base", "d2c", t] for t in case.get("registry", [])] + [list(x) for x in case.get("history", [])]
 
 
+def spelled(tag):
+    """the tag argument of a register / unregister call: text, or bytes written as {"b": [ints]}"""
+    return bytes(tag["b"]) if isinstance(tag, dict) else tag
+
+
+def denoted(tag):
+    """the text tag a spelling stands for (bytes: its UTF-8 decoding, if any)"""
+    v = spelled(tag)
+    if isinstance(v, bytes):
+        try:
+            return v.decode("utf-8")
+        except UnicodeDecodeError:
+            return None
+    return v
+
+
 def spec_registered(history, kind):
-    """the specification: tags whose last call (through whichever entry point) was a register"""
+    """the specification (registry as a map): an argument is registered iff the last call made with that very argument
+    (str or bytes, through whichever entry point) was a register; returns the text tags such live arguments stand for --
+    only for these may decoding ever run a converter"""
     cur = {}
     for op, ep, k, tag in history:
         if k == kind:
-            cur[tag] = (op == "reg")
-    return {t for t, v in cur.items() if v}
+            cur[repr(spelled(tag))] = (op == "reg", tag)
+    return {denoted(tag) for live, tag in cur.values() if live} - {None}
+
+
+def spec_must_convert(history):
+    """text tags registered as text, last call a register, and never named through a bytes spelling (no aliasing):
+    for these the converter has to be used"""
+    cur, aliased = {}, set()
+    for op, ep, k, tag in history:
+        if k == "d2c":
+            if isinstance(tag, dict):
+                aliased.add(denoted(tag))
+            else:
+                cur[tag] = (op == "reg")
+    return {t for t, v in cur.items() if v and t not in aliased}
 
 
 class CustomObj:
@@ -231,8 +266,16 @@ class CustomObj:
 
 
 # ---------------------------------------------------------------- payload trees  (JSON-able description <-> python value)
-def build(t, I):
+def build(t, I, memo=None):
+    """["share", id, subtree] builds the subtree once; ["ref", id] (and later "share"s of the same id) are that very object"""
+    memo = {} if memo is None else memo
     k = t[0]
+    if k == "share":
+        if t[1] not in memo:
+            memo[t[1]] = build(t[2], I, memo)
+        return memo[t[1]]
+    if k == "ref":
+        return memo[t[1]]
     if k == "n":
         return None
     if k == "B":
@@ -250,18 +293,30 @@ def build(t, I):
     if k == "E":
         return I.msgpack.ExtType(t[1], bytes(t[2]))
     if k == "L":
-        return [build(x, I) for x in t[1]]
+        return [build(x, I, memo) for x in t[1]]
     if k == "T":
-        return tuple(build(x, I) for x in t[1])
+        return tuple(build(x, I, memo) for x in t[1])
     if k == "S":
-        return set(build(x, I) for x in t[1])
+        return set(build(x, I, memo) for x in t[1])
     if k == "D":
-        return {build(kk, I): build(v, I) for kk, v in t[1]}
+        return {build(kk, I, memo): build(v, I, memo) for kk, v in t[1]}
     raise ValueError(k)
 
 
-def project(v, ser, I):
-    """what the serializer's own dumps would make of the value's container types (json/msgpack have no tuple, set, ...)"""
+def project(v, ser, I, memo=None):
+    """what the serializer's own dumps would make of the value's container types (json/msgpack have no tuple, set, ...);
+    an object that occurs twice stays one object (marshal transmits such sharing)"""
+    memo = {} if memo is None else memo
+    if isinstance(v, (list, dict)) and not isinstance(v, I.msgpack.ExtType):
+        if id(v) in memo:
+            return memo[id(v)][1]
+        out = _project(v, ser, I, memo)
+        memo[id(v)] = (v, out)
+        return out
+    return _project(v, ser, I, memo)
+
+
+def _project(v, ser, I, memo):
     if isinstance(v, I.msgpack.ExtType):
         return v if ser == "msgpack" else [v.code, bytes(v.data)]
     if isinstance(v, dict):
@@ -273,10 +328,10 @@ def project(v, ser, I):
                 k = repr(k)
             if ser == "serpent" and isinstance(k, bytes):
                 k = repr(k)
-            out[k] = project(x, ser, I)
+            out[k] = project(x, ser, I, memo)
         return out
     if isinstance(v, (list, tuple, set, frozenset)):
-        items = [project(x, ser, I) for x in v]
+        items = [project(x, ser, I, memo) for x in v]
         if ser in ("json", "msgpack"):
             return items
         if isinstance(v, (set, frozenset)):
@@ -467,17 +522,21 @@ def run_impl(case):
 
 
 # ---------------------------------------------------------------- oracle: the property over the observation
-def live_tags(v, out):
+def live_tags(v, out, reg=()):
     """class tags of the tagged dicts reachable in a decoded literal through lists/tuples/sets/dict values without crossing a tagged dict"""
     if isinstance(v, (list, tuple, set, frozenset)):
         for x in v:
-            live_tags(x, out)
+            live_tags(x, out, reg)
     elif isinstance(v, dict):
         if "__class__" in v:
             out.append(v["__class__"])
+            # the exception wrapper hands its "exception" member to dict_to_class as well: that tag is decided too
+            # (unless a converter registered for the wrapper's own tag takes the whole dict)
+            if v["__class__"] == "Pyro5.core._ExceptionWrapper" and v["__class__"] not in reg and isinstance(v.get("exception"), dict):
+                live_tags(v["exception"], out, reg)
         else:
             for x in v.values():
-                live_tags(x, out)
+                live_tags(x, out, reg)
 
 
 def count_tagged(v):
@@ -509,6 +568,7 @@ def oracle(case, obs):
     bad = []
     history = history_of(case)
     reg = spec_registered(history, "d2c")
+    must = spec_must_convert(history)
     for name, used in obs.get("c2d", []):
         want = name in spec_registered(history, "c2d")
         if used != want:
@@ -539,7 +599,7 @@ def oracle(case, obs):
     if recreated_slot:
         tags = []
         for part in (obs["parts"] if case["path"] == "loads" else obs["parts"][2:4]):
-            live_tags(part, tags)
+            live_tags(part, tags, reg)
         texts = [tag_text(t) for t in tags]
         if obs["kind"] == "ok":
             for tg, tx in zip(tags, texts):
@@ -551,7 +611,7 @@ def oracle(case, obs):
                     bad.append(("dunder-tag-accepted", "the tag %r contains a double underscore and was not rejected" % tx))
                 elif not I.acceptable_tag(tx, case["ser"]):
                     bad.append(("unknown-tag-accepted", "the tag %r names no class of the closed set and was not rejected" % tx))
-        if len(tags) == 1 and sum(count_tagged(p) for p in obs["parts"]) == 1 and texts[0] is not None and texts[0] in reg and obs["convs"] != [texts[0]] \
+        if len(tags) == 1 and sum(count_tagged(p) for p in obs["parts"]) == 1 and texts[0] is not None and texts[0] in must and obs["convs"] != [texts[0]] \
                 and not I.is_special(case["ser"], tags[0]):      # a serializer's own special tag never reaches the registry
             bad.append(("registered-converter-not-used", "the tag %r is registered (history %r) but serializer %s did not hand it to the converter (%s)" % (
                 texts[0], history, case["ser"], obs["exc"] or "decoded otherwise")))
@@ -602,8 +662,10 @@ def c_obs(obs):
 
 def c_op(h):
     op, ep, kind, tag = h
-    return "{| op_add := %s; op_ep := %s; op_kind := %s; op_tag := %s |}" % (
-        cbool(op == "reg"), "EpBase" if ep in ("base", "api") else "(EpSer %s)" % cN(SER_IDS[ep]), "KD2C" if kind == "d2c" else "KC2D", ctext(tag))
+    v = spelled(tag)
+    return "{| op_add := %s; op_ep := %s; op_kind := %s; op_bytes := %s; op_tag := %s |}" % (
+        cbool(op == "reg"), "EpBase" if ep in ("base", "api") else "(EpSer %s)" % cN(SER_IDS[ep]), "KD2C" if kind == "d2c" else "KC2D",
+        cbool(isinstance(v, bytes)), vlib.cbytes(v) if isinstance(v, bytes) else ctext(v))
 
 
 def c_case(case, obs):
@@ -652,6 +714,31 @@ class Gen:
         pool["dotted"] = dotted
         pool["dunder"] = [t for t in dotted if "__" in t] + ["__main__.Foo", "a__b", "__", "____", "Pyro5.core.URI__", "__Pyro5.core.URI", "Pyro5.core.__URI",
                                                              "builtins.__import__", "Pyro5.errors.__builtins__", "ValueError__", "_ _", "x.__class__.__init__"]
+        # names of the closed set under spellings that contain a double underscore (legacy / foreign namespace names,
+        # decorated namespaces and class names): all of them must be refused
+        deco = []
+        shorts = ["ValueError", "OSError", "SystemExit", "KeyError", "PyroError", "Error", "URI", "error"]
+        for ns in ("__builtin__", "__builtins__", "__exceptions__", "__main__", "__sqlite3__", "__struct__", "__pyro5__", "builtins__", "__builtins",
+                   "exceptions__", "Pyro5.__errors__", "Pyro5.errors__", "__Pyro5__.errors", "__future__", "__builtin__.builtins", "builtins.__builtin__"):
+            for sh in shorts:
+                deco.append(ns + "." + sh)
+        for tagx in sorted(I.fixed_tags) + ["ValueError", "builtins.ValueError", "exceptions.OSError", "sqlite3.Error", "Pyro5.errors.NamingError"]:
+            deco += ["__" + tagx, tagx + "__", tagx.replace(".", ".__", 1), tagx.replace(".", "__.", 1), tagx.replace(".", "__", 1)]
+        pool["decorated"] = sorted(set(t for t in deco if "__" in t))
+        # bare names of every exception class the interpreter knows that is NOT in the closed set (stdlib, third-party, Pyro-internal)
+        foreign, todo, seen = set(), [BaseException], set()
+        while todo:
+            c = todo.pop()
+            if c in seen:
+                continue
+            seen.add(c)
+            try:
+                todo.extend(c.__subclasses__())
+            except TypeError:
+                pass
+            if c not in I.closed and c.__name__ not in I.builtin_exc and c.__name__ not in I.pyro_exc:
+                foreign.add(c.__name__)
+        pool["foreign_short"] = sorted(foreign)
         pool["local"] = ["tests.test_serialize.Custom", "__main__.C", "testsupport.X", "test_serialize.SerializeTests", "mypackage.mymodule.MyClass",
                          "float", "int", "open", "eval", "os.system", "subprocess.Popen", "Pyro5.core.Daemon", "Pyro5.core.URI.x", "pyro5.core.uri",
                          "Pyro5.util.", "Pyro5.util.Serializer", "Pyro5.util.SerpentSerializer.x", "Pyro5.errors.", "Pyro5.errors", "Pyro5.errors.PyroError.x",
@@ -675,8 +762,12 @@ class Gen:
             return S(ns + "." + self.rng.choice(sorted(names)))
         if r < 0.68:
             return S(self.rng.choice(p["dotted"]))
-        if r < 0.78:
+        if r < 0.73:
             return S(self.rng.choice(p["dunder"]))
+        if r < 0.76:
+            return S(self.rng.choice(p["decorated"]))
+        if r < 0.78 and p["foreign_short"]:
+            return S(self.rng.choice(p["foreign_short"]))
         if r < 0.90:
             return S(self.rng.choice(p["local"]))
         if r < 0.95:   # bytes tags (marshal / msgpack keep them as bytes)
@@ -804,13 +895,56 @@ class Gen:
         h = []
         for _ in range(r.choice([1, 2, 2, 3, 3, 4, 5, 6])):
             if r.random() < 0.75:
-                h.append([r.choice(["reg", "reg", "unreg"]), r.choice(ENTRY_POINTS), "d2c", r.choice(pool[:3]) if r.random() < 0.8 else r.choice(pool)])
+                tag = r.choice(pool[:3]) if r.random() < 0.8 else r.choice(pool)
+                if r.random() < 0.3:      # the same tag, spelled as bytes (now and then not valid UTF-8)
+                    tag = {"b": list(tag.encode("utf-8")) + ([0xff] if r.random() < 0.1 else [])}
+                h.append([r.choice(["reg", "reg", "unreg"]), r.choice(ENTRY_POINTS), "d2c", tag])
             else:
                 h.append([r.choice(["reg", "unreg"]), r.choice(ENTRY_POINTS), "c2d", r.choice(sorted(KCLASSES))])
         return h
 
+    def shared_case(self):
+        """a container that occurs twice in the payload (marshal keeps it ONE object): as an ordinary container whose
+        members are re-created, and as the state / args / attributes member of a class dict"""
+        r = self.rng
+        nested = proxy_dict() if r.random() < 0.5 else self.tagged(2, False)[0]
+        key = r.choice(["state", "state", "state", "args", "attributes"])
+        if key == "attributes":
+            member = D([("a", nested), ("b", self.scalar())])
+            tag = r.choice(["ValueError", "Pyro5.errors.NamingError"])
+        elif key == "args":
+            member = L([S("m"), nested])
+            tag = r.choice(["ValueError", "SyntaxError", "Pyro5.errors.NamingError", "KeyError"])
+        else:
+            pos = r.choice([1, 2, 3, 0, 4])
+            items = [S("PYRO:obj@127.0.0.1:9"), L([]), L([S("m")]), L([]), S("hello"), ["n"]]
+            items[pos] = nested if r.random() < 0.6 else L([nested])
+            member = L(items[:5] if r.random() < 0.3 else items)
+            tag = r.choice(["Pyro5.client.Proxy", "Pyro5.client.Proxy", "Pyro5.core.URI", "Pyro5.server.Daemon"])
+        items = [("__class__", S(tag)), ("__exception__", ["B", True]), (key, ["ref", 1])]
+        if key != "args":
+            items.append(("args", L([S("m")])))
+        tagged = D(items)
+        first = ["share", 1, member]
+        shape = r.randrange(4)
+        if shape == 0:
+            t = L([first, tagged])
+        elif shape == 1:
+            t = D([("a", first), ("b", tagged)])
+        elif shape == 2:
+            t = L([L([self.scalar(), first]), D([("k", tagged)])])
+        else:
+            t = L([D([("__class__", S(tag)), ("__exception__", ["B", True]), (key, ["share", 1, member]), ("args", L([S("m")]))]), ["ref", 1]])
+        case = {"ser": r.choice(["marshal", "marshal", "marshal", "serpent", "json", "msgpack"]), "path": r.choice(["loads", "call"]), "tree": t,
+                "hostile": True, "registry": []}
+        if case["path"] == "call":
+            case["slot"] = r.choice(["vargs", "kwargs"])
+        return case
+
     def case(self):
         r = self.rng
+        if r.random() < 0.05:
+            return self.shared_case()
         ser = r.choice(["serpent", "marshal", "json", "msgpack"])
         path = r.choice(["loads", "loads", "call"])
         hostile = r.random() < 0.35
@@ -838,6 +972,7 @@ def history_cases(I):
     """systematic two- and three-step histories mixing the entry points, for every serializer and both decode paths"""
     out = []
     T, U = "shop.Order", "shop.Other"
+    TB = {"b": list(T.encode("utf-8"))}
     tree = L([D([("__class__", S(T)), ("ident", ["i", 42])])])
     for ser in ("serpent", "marshal", "json", "msgpack"):
         others = [x for x in ("serpent", "marshal", "json", "msgpack") if x != ser]
@@ -852,6 +987,11 @@ def history_cases(I):
                     [["reg", others[0], "d2c", T], ["unreg", others[1], "d2c", T]],
                     [["reg", entry, "d2c", T], ["unreg", ser, "d2c", U], ["unreg", entry, "d2c", T]],
                     [["reg", ser, "d2c", T], ["unreg", ser, "d2c", T], ["reg", entry, "d2c", T], ["unreg", others[0], "d2c", T]],
+                    [["reg", entry, "d2c", TB], ["unreg", entry, "d2c", TB]],
+                    [["reg", entry, "d2c", TB]],
+                    [["reg", entry, "d2c", T], ["unreg", ser, "d2c", TB]],
+                    [["reg", ser, "d2c", TB], ["unreg", entry, "d2c", T]],
+                    [["reg", entry, "d2c", TB], ["reg", entry, "d2c", T], ["unreg", entry, "d2c", TB]],
                     [["reg", entry, "c2d", "K0"], ["reg", ser, "c2d", "K1"], ["unreg", entry, "c2d", "K0"]],
                     [["reg", ser, "c2d", "K0"], ["unreg", entry, "c2d", "K0"], ["reg", entry, "c2d", "K2"]],
                 ]
@@ -906,6 +1046,24 @@ def targeted(I):
                 for args in (L([]), L([S("m")])):
                     out.append({"ser": ser, "path": "loads", "tree": D([("__class__", S("builtins." + name)), ("__exception__", ["B", True]), ("args", args)]),
                                 "hostile": False, "registry": []})
+        # closed-set names under double-underscore spellings (legacy namespaces, decorations), flagged and with benign members
+        if ser in ("json", "marshal"):
+            g = Gen.__new__(Gen)
+            g.I = I
+            pools = Gen.tag_pool(g)
+            if ser == "json":
+                for tagx in pools["foreign_short"]:
+                    for args in (L([S("m")]), L([S("m"), ["i", 5]])):
+                        out.append({"ser": ser, "path": "loads", "tree": D([("__class__", S(tagx)), ("__exception__", ["B", True]), ("args", args)]),
+                                    "hostile": True, "registry": []})
+                for tagx in ("os.system", "subprocess.Popen", "tests.Custom", "Pyro5.core.Daemon"):
+                    inner = D([("__class__", S(tagx)), ("__exception__", ["B", True]), ("args", L([S("m")]))])
+                    w = D([("__class__", S("Pyro5.core._ExceptionWrapper")), ("exception", inner)])
+                    for tree in (w, L([w, ["i", 1]]), D([("__class__", S("Pyro5.core._ExceptionWrapper")), ("exception", w)])):
+                        out.append({"ser": ser, "path": "loads", "tree": tree, "hostile": False, "registry": []})
+            for tagx in pools["decorated"]:
+                out.append({"ser": ser, "path": "loads", "tree": D([("__class__", S(tagx)), ("__exception__", ["B", True]), ("args", L([S("m")])),
+                                                                   ("state", URI_STATE)]), "hostile": False, "registry": []})
         # every name bound in Pyro5.errors, with and without arguments a function would accept
         for name in sorted(k for k in vars(I.errors)):
             for args in (L([]), L([S("m")])):
@@ -934,6 +1092,10 @@ def execute(ctx, cases, model_ok, res):
             res.count("history_len_%d" % len(case["history"]))
             if len({h[1] if h[1] != "api" else "base" for h in case["history"]}) > 1:
                 res.count("history_mixed_entry_points")
+            if any(isinstance(h[3], dict) for h in case["history"]):
+                res.count("history_bytes_spelling")
+        if '"share"' in json.dumps(case["tree"]):
+            res.count("shared_container")
         if case.get("hostile"):
             res.count("hostile_members")
         for sig, what in oracle(case, obs):
